@@ -686,6 +686,14 @@ class SymStr(Sym):
         e = enc.lower().replace("-", "").replace("_", "")
         if e in ("latin1", "iso88591"):
             return SymSeq(self.codes(), "bytes")
+        if e in ("utf8", "ascii"):
+            C = core.CTX
+            for c in self.codes():
+                if not isinstance(c, int) and C.is_sat(toint(c) >= 128):
+                    raise Unsupported("encode(%s) of SymStr with possibly non-ASCII characters" % enc)
+                if isinstance(c, int) and c >= 128:
+                    raise Unsupported("encode(%s) of SymStr with non-ASCII characters" % enc)
+            return SymSeq(self.codes(), "bytes")
         raise Unsupported("encode(%s) of SymStr" % enc)
 
     def startswith(self, p):
@@ -733,8 +741,17 @@ class SymStr(Sym):
         return out
 
     def replace(self, old, new, count=-1):
-        if not (isinstance(old, str) and isinstance(new, str) and len(old) == 1 and len(new) == 1) or count != -1:
+        if not (isinstance(old, str) and isinstance(new, str) and len(old) == 1) or count != -1:
             raise Unsupported("SymStr.replace(%r,%r)" % (old, new))
+        if len(new) != 1:
+            out = []
+            for ch, c in zip(self.chars, self.codes()):
+                hit = (c == ord(old)) if isinstance(c, int) else bool(c == ord(old))
+                if hit:
+                    out.extend(new)
+                else:
+                    out.append(ch)
+            return SymStr(out)
         out = []
         for ch, c in zip(self.chars, self.codes()):
             if isinstance(c, int):
